@@ -7,7 +7,8 @@ namespace wm
 struct FieldValue
 {
     std::string desc;
-    std::function<void(dj::track&)> set;
+    std::function<void(dj::track&)> set;                 // through the single-field setter (empty for file_bytes, which has none)
+    std::function<void(dj::track_snapshot&)> put;        // the same value placed in a snapshot (C01)
     std::vector<std::string> allowed_v1, allowed_v2;                  // texts the field's getter may return afterwards ({} = not predicted)
     std::vector<std::pair<std::string, std::string>> extra_expect;   // other facts of the same field group with their exact expected text
     bool must_succeed = true;                                         // false: the schema may legitimately refuse the value (all-or-nothing)
@@ -17,6 +18,7 @@ struct Field
     std::string name;                // setter name without "set_"; also the name of the primary getter fact
     std::vector<std::string> facts;  // getter facts that belong to this field (primary first); all others must not change
     std::vector<FieldValue> values;
+    bool has_setter = true;
 };
 const std::vector<Field>& fields();
 const Field* field_by_name(const std::string& n);
